@@ -33,7 +33,11 @@ import (
 	"strings"
 )
 
-var pkgs = []string{"internal/configs", "internal/configs/version1", "internal/configs/version2"}
+var pkgs = []string{"internal/configs", "internal/configs/version1", "internal/configs/version2", "internal/k8s"}
+
+// fileFilter: of a package that does much more than build the generator's input, only these files are inventoried
+// (the Configuration that arbitrates hosts and hands the resources, in order, to the Configurator)
+var fileFilter = map[string]map[string]bool{"internal/k8s": {"configuration.go": true}}
 
 type site struct {
 	Pkg, File, Func string
@@ -55,6 +59,7 @@ func main() {
 	repo := flag.String("repo", "/repo", "repository root")
 	out := flag.String("out", "", "output .v file")
 	jsonOut := flag.String("json", "", "optional JSON copy of the inventory")
+	allFiles := flag.Bool("all-files", false, "ignore the file filter (exploration)")
 	flag.Parse()
 
 	exports, modpath, err := goList(*repo)
@@ -98,6 +103,9 @@ func main() {
 			os.Exit(2)
 		}
 		for i, f := range files {
+			if ff, ok := fileFilter[rel]; ok && !ff[names[i]] && !*allFiles {
+				continue
+			}
 			s, n := scanFile(fset, info, rel, names[i], f)
 			sites = append(sites, s...)
 			nds = append(nds, n...)
@@ -105,7 +113,7 @@ func main() {
 	}
 	// order-dependent post-processing, found syntactically (no type information needed), also in the
 	// controller package that hands the endpoint sets to the generator
-	for _, rel := range append(append([]string{}, pkgs...), "internal/k8s") {
+	for _, rel := range pkgs {
 		dir := filepath.Join(*repo, rel)
 		bp, err := build.Default.ImportDir(dir, 0)
 		if err != nil {
